@@ -362,6 +362,28 @@ fn read_suite<W: Write>(t: &Tables, thorough: bool, rng: &mut Rng, out: &mut W) 
     for s in CORPUS_STRINGS { read_req(out, s) }
     for s in CORPUS_STRINGS { probe_prefixes(s, out) }
     for s in ["[13C@TB12H2+2:7]C%12(=O)/C=C\\C%12", "[C@OH25H-15:123]=1.[nH+]$1", "[Cl@SP2-]", "[se@AL1]", "[Uue@@H9++]"] { probe_prefixes(s, out) }
+    // every combination of bond symbols on the two ends of a ring closure (8 x 8), on distant, adjacent and dot-separated
+    // atoms, with one- and two-digit numbers, and with the closing digit after a branch
+    let syms = ["", "-", "=", "#", "$", ":", "/", "\\"];
+    for l in syms.iter() { for r in syms.iter() {
+        read_req(out, &format!("C{}1CC{}1", l, r));
+        read_req(out, &format!("C{}1C{}1", l, r));
+        read_req(out, &format!("C{}%12C.C{}%12", l, r));
+        read_req(out, &format!("C{}1(C(C)C){}1", l, r));
+        read_req(out, &format!("N{}1C(O{}1)C", l, r));
+        read_req(out, &format!("C{}1{}2CC{}2C{}1", l, r, r, l));
+    } }
+    // a stereocentre in every role: root, chain atom, ring opener, ring closer, with two digits, with 0 / 1 / 2 hydrogens,
+    // both marks, and with a directional ring closure crossing a dot
+    for mark in ["@", "@@", "@TH1", "@TH2", "@AL1", "@AL2", "@SP1", "@TB5", "@OH7"].iter() { for h in ["", "H", "H0", "H2", "H3"].iter() {
+        let c = format!("[C{}{}]", mark, h);
+        for s in [format!("{}(F)(Cl)Br", c), format!("N{}(F)(Cl)Br", c), format!("{}1(F)CC1", c), format!("F{}1(Cl)CC1", c),
+                  format!("C1C{}1(F)Cl", c), format!("C1CC{}1F", c), format!("C12C{}12F", c), format!("{}12CC1C2", c),
+                  format!("F{}(Cl)(Br)I", c), format!("C({}(F)Cl)Br", c), format!("F/C=C/{}(Cl)Br", c), format!("C/1.{}\\1F", c),
+                  format!("O.N{}(F)Cl", c), format!("C1CC1{}%12.F%12", c)].iter() {
+            read_req(out, s);
+        }
+    } }
     let a14 = ["C", "N", "c", "(", ")", ".", "=", "/", "1", "2", "%", "[", "]", "*"];
     let a6 = ["C", "(", ")", ".", "1", "="];
     let a8 = ["C", "[", "]", "@", "H", "+", "2", ":"];
@@ -668,6 +690,19 @@ fn hub_family<W: Write>(thorough: bool, out: &mut W) {
 fn graph<W: Write>(_t: &Tables, thorough: bool, rng: &mut Rng, out: &mut W) {
     graph_req(out, &[]);
     hub_family(thorough, out);
+    // garbage at the extremes: target ids at and beyond integer widths, and atoms with hundreds of identical, self or
+    // dangling half-bonds
+    for big in [255usize, 256, 65535, 65536, 4294967295, 4294967296, usize::MAX - 1, usize::MAX] {
+        graph_req(out, &vec![GAtom { kind: "*".to_string(), bonds: vec![(0, big)] }]);
+        graph_req(out, &vec![GAtom { kind: "*".to_string(), bonds: vec![(0, 1)] }, GAtom { kind: "*".to_string(), bonds: vec![(0, 0), (0, big)] }]);
+        graph_req(out, &vec![GAtom { kind: "*".to_string(), bonds: vec![(0, 1), (6, big)] }, GAtom { kind: "*".to_string(), bonds: vec![(0, 0)] }]);
+    }
+    for m in [300usize, 1000] {
+        graph_req(out, &vec![GAtom { kind: "*".to_string(), bonds: vec![(0, 1); m] }, GAtom { kind: "*".to_string(), bonds: vec![(0, 0); m] }]);
+        graph_req(out, &vec![GAtom { kind: "*".to_string(), bonds: vec![(0, 0); m] }]);
+        graph_req(out, &vec![GAtom { kind: "*".to_string(), bonds: vec![(0, 1); m] }, GAtom { kind: "*".to_string(), bonds: vec![(0, 0)] }]);
+        graph_req(out, &vec![GAtom { kind: "*".to_string(), bonds: vec![(0, 7); m] }]);
+    }
     // exhaustive small graphs
     all_small_graphs(1, &[0], out, true);
     all_small_graphs(2, &[0, 6], out, true);
